@@ -529,3 +529,30 @@ Proof. vm_compute. reflexivity. Qed.
 Lemma old_unwritten_cell :
   exists buf off, fill wX 2 (f_values wX) (repeat Garbage 6) 0 = Ok (buf, off) /\ off = 5 /\ nth 5 buf (Written 0) = Garbage.
 Proof. eexists. eexists. vm_compute. repeat split. Qed.
+
+(* ------------------------------------------------------------------------------------------------- *)
+(* packaged statements used by Props/C04.v *)
+
+Lemma values_spec X : StronglySorted Z.lt (f_values X) /\ (forall v, In v (f_values X) <-> In v X).
+Proof. split; [apply f_values_sorted | intros v; apply f_values_In]. Qed.
+
+Lemma positions_spec X v :
+  StronglySorted lt (where_eq X v) /\ (forall i, In i (where_eq X v) <-> nth_error X i = Some v).
+Proof. split; [apply where_eq_sorted | intros i; apply where_eq_spec]. Qed.
+
+Lemma counts_spec X v k : In (v, k) (numba_unique X) -> k = length (where_eq X v) /\ 0 < k.
+Proof. intros H. split; [eapply numba_unique_count | eapply numba_unique_pos]; exact H. Qed.
+
+Lemma sample_nonempty_spec X r :
+  X <> [] -> sampled_indices X r <> [] /\ (forall i, In i (sampled_indices X r) -> i < length X).
+Proof. intros H. split; [apply sampled_indices_nonempty; exact H | apply sampled_indices_bound]. Qed.
+
+Lemma prefix_refuted : exists (g1 g2 : nat -> Z) Y X r c,
+  length Y = length X /\ entry_old g1 Y X r c <> entry_old g2 Y X r c.
+Proof.
+  exists (fun _ => 3%Z), (fun _ => 9%Z), wY, wX, w07, false. split; [reflexivity | exact old_depends_on_garbage].
+Qed.
+
+Lemma prefix_unsafe : exists (g : nat -> Z) Y X r c,
+  length Y = length X /\ entry_old g Y X r c = Error IndexOutOfRange.
+Proof. exists (fun _ => 10%Z), wY, wX, w07, false. split; [reflexivity | exact old_can_fail]. Qed.
